@@ -126,6 +126,7 @@ class Ephem(Speaker):
         """Change the frames of all points"""
         for orb in self:
             orb.frame = frame
+        self._reset_interp()
 
     @property
     def form(self):  # pragma: no cover
@@ -137,6 +138,17 @@ class Ephem(Speaker):
         """Change the form of all points"""
         for orb in self:
             orb.form = form
+        self._reset_interp()
+
+    def _reset_interp(self):
+        """The interpolator works on a copy of the points, taken when it is created.
+        It has to be discarded when the points are converted in place, in order to
+        be created again, from the converted points, when needed.
+        """
+        if hasattr(self, "_interp"):
+            self._method = self._interp.method
+            self._order = self._interp.order
+            del self._interp
 
     def interpolate(self, date):
         """Interpolate data at a given date
